@@ -10,20 +10,24 @@ NSHARDS = {"quick": 4, "thorough": 16}
 CLAUSES = {
     "C14.records": 10000, "C14.truth": 1500, "C14.h2": 2000,
     "C14.means": 1000, "C14.invariance": 1500, "C14.alignment": 4000, "C14.truebv": 2000,
-    "C14.variance": 100, "C14.constancy": 30, "C14.independence": 100,
+    "C14.variance": 100, "C14.constancy": 4000, "C14.independence": 4000,
 }
 HOOKS_REQUIRED = ["G_E_Phenotyping.phenotype calls", "TruePhenotyping.phenotype calls",
                   "MeanPhenotypicBreedingValue.estimate calls", "TrueBreedingValue.estimate calls", "set_h2/set_H2 calls"]
 RULE = ("flow cases: population (1-30 taxa, 1-24 markers, ploidy 1/2/4, taxon names deliberately unsorted: mixed-case strings, "
         "numeric strings, integer objects, or absent; groups present/absent/taxa-grouped) x genomic model (additive q=1, additive q>1, "
         "additive+dominance, rrBLUPModel0; 1-3 traits, labels present/absent, exact-zero effects, large intercept) x trial "
-        "(1-6 environments, scalar or per-environment replicate counts, variances all-zero / None / scalar / per-trait incl. zeros, "
+        "(1-6 environments, scalar or per-environment replicate counts, variances all-zero / None / scalar / per-trait float64, float32 or integer "
+        "vectors with exact zeros on some traits only, per-trait heritability targets with exactly 1.0 on some traits only, "
         "optional session of 1-4 set_h2/set_H2 calls on the one live protocol object (h in (0,1] incl. 1 and 1e-6; the population itself, a "
-        "sub-selection of it, or new taxa of another size and allele frequency; interleaved with phenotype() and re-assignment of var_err / gpmod; "
+        "sub-selection of it, new taxa of another size and allele frequency, or 600-4000 taxa stored pool after pool with pool-specific allele frequencies; interleaved with phenotype() and re-assignment of var_err / gpmod; "
         "every call judged for the population passed in that call), rng Generator/RandomState/global) x phenotype-frame variant "
         "(as returned, rows shuffled, index reset, unbalanced after row deletion, renamed + junk columns, trait subset/reversed) x "
         "genotype matrix for alignment (None, same, permuted, subset, with never-phenotyped taxa, only unphenotyped, phased or "
-        "unphased, own group labels, taxa-grouped).  stat cases: 400-3000 environments x 1-4 replicates x 1-12 taxa, exact "
+        "unphased, own group labels, taxa-grouped); every small trial, and a second trial on the same protocol object after re-assigning "
+        "nenv/nrep/variances, is judged trait by trait: zero-variance strata vanish, positive-variance strata carry distinct effects.  "
+        "stat cases (12 design classes incl. zero on some traits only in var_env / var_rep / var_err and heritability exactly 1 on some traits): "
+        "1000-10000 environments x 1-4 replicates x 1-12 taxa, exact "
         "chi-square tests of the error / replicate / environment strata per trait, Bonferroni family-wise alpha 1e-9 over the run, "
         "confirmation stage (independent seed, 4x environments, alpha 1e-6).  Non-trivial: >= 2 taxa and >= 2 records per taxon; "
         "distinct = digest of population, model, trial design and variant.")
@@ -428,10 +432,15 @@ def gen_other_population(g, pg, kind):
     if kind == "sub-selection":
         k = int(g.integers(1, n + 1))
         return pg.select_taxa(numpy.sort(g.permutation(n)[:k]))
-    m = int(g.choice([1, 2, 4, 9, 25, 40]))
-    f = float(g.choice([0.05, 0.2, 0.5, 0.9]))
-    raw = (g.random((pg.mat.shape[0], m, p)) < f).astype("int8")
-    return DensePhasedGenotypeMatrix(raw, taxa=numpy.array(["s%02d" % i for i in range(m)], dtype=object), taxa_grp=None,
+    if kind == "large structured population":      # > 1000 taxa stored pool after pool, pools differing in allele frequency
+        sizes = [int(x) for x in g.choice([300, 520, 700, 1030], int(g.integers(2, 5)))]
+        m = sum(sizes)
+        raw = numpy.concatenate([(g.random((pg.mat.shape[0], k, p)) < float(g.choice([0.05, 0.3, 0.7, 0.95]))).astype("int8") for k in sizes], axis=1)
+    else:
+        m = int(g.choice([1, 2, 4, 9, 25, 40]))
+        f = float(g.choice([0.05, 0.2, 0.5, 0.9]))
+        raw = (g.random((pg.mat.shape[0], m, p)) < f).astype("int8")
+    return DensePhasedGenotypeMatrix(raw, taxa=numpy.array(["s%04d" % i for i in range(m)], dtype=object), taxa_grp=None,
                                      vrnt_chrgrp=numpy.ones(p, dtype="int64"), vrnt_phypos=numpy.arange(1, p + 1, dtype="int64"))
 
 
@@ -502,7 +511,7 @@ def h2_session(ctx, g, pt, pg, mod, M, coords):
             h = g.uniform(0.05, 1.0, Mc["nt"])
             if hm == 5 and Mc["nt"] > 1:      # exactly 1.0 on some traits only
                 h[g.permutation(Mc["nt"])[: int(g.integers(1, Mc["nt"]))]] = 1.0
-        pk = "the population" if (step == 0 and g.random() < 0.6) else ["the population", "sub-selection", "new taxa", "new taxa"][int(g.integers(4))]
+        pk = "the population" if (step == 0 and g.random() < 0.6) else ["the population", "sub-selection", "new taxa", "new taxa", "large structured population"][int(g.integers(5))]
         pop = pg if pk == "the population" else gen_other_population(g, pg, pk)
         history.append("%s(%s, %s of %d taxa)" % (hkind, numpy.round(h, 6).tolist() if numpy.ndim(h) else h, pk, pop.ntaxa))
         try:
@@ -511,6 +520,7 @@ def h2_session(ctx, g, pt, pg, mod, M, coords):
             ctx.raised("G_E_Phenotyping." + hkind, e)
             continue
         ctx.hook("set_h2/set_H2 calls")
+        ctx.sumnote("h2 calls on: %s" % pk)
         ctx.sumnote("h2 calls as %s" % ("first call on the protocol" if done == 0 else "second and later calls on the protocol"))
         judge_h2(ctx, pt, hkind, h, pop, Mc, done, list(history), coords)
         done += 1
